@@ -436,7 +436,7 @@ class _TileStage(StageHarness):
 
     def expected_items(self):
         if self._expected is None:
-            self._expected = [(i,) for i in range(self.nimg)]
+            self._expected = [(i,) for i in range(self.nimg) if i not in getattr(self, "nan_images", ())]
         return self._expected
 
     def cleanup(self, root):
@@ -506,12 +506,19 @@ class MultiTan(_TileStage):
                 d = tempfile.mkdtemp(prefix="verif-mtin-", dir=scratch_root())
                 atexit.register(shutil.rmtree, d, True)
                 self._paths = []
+                hdus = [fits.PrimaryHDU()]
                 for i, im in enumerate(tan_images(self.nimg)):
                     a = np.array(im.asarray())
                     a[:, 0] = -999.0
                     pth = os.path.join(d, "in%d.fits" % i)
                     fits.PrimaryHDU(a, header=im.wcs.to_header()).writeto(pth, overwrite=True)
+                    hdus.append(fits.ImageHDU(a, header=im.wcs.to_header()))
                     self._paths.append(pth)
+                self._mef = os.path.join(d, "all.fits")
+                fits.HDUList(hdus).writeto(self._mef, overwrite=True)
+            if getattr(self, "mef", False):
+                # ONE multi-extension file listed once per extension
+                return _coll.load([self._mef] * self.nimg, hdu_index=list(range(1, self.nimg + 1)), blankval=-999.0)
             return _coll.load(list(self._paths), blankval=-999.0)
 
         if getattr(self, "_tmpl", None) is None:
@@ -536,6 +543,9 @@ class MultiTan(_TileStage):
 
 def _fake_reproject(input_data, output_projection=None, shape_out=None, return_footprint=False, **kw):
     arr, _wcs = input_data
+    if not np.isfinite(arr).any():
+        # a segment without data reprojects to nothing
+        return np.full(shape_out, np.nan, dtype=np.float64)
     v = float(np.nanmax(arr))
     if v < 0:
         raise FAULTS[{-1: "runtime", -2: "oserror", -3: "valueerror"}[int(round(v))]]("injected failure in reprojection")
@@ -558,6 +568,8 @@ class MultiWcs(_TileStage):
         imgs = tan_images(self.nimg)
         for i, im in enumerate(imgs):
             im.asarray()[...] = float(i + 1)
+        for i in getattr(self, "nan_images", ()):
+            imgs[i].asarray()[...] = np.nan  # a segment without any data (dead chip): nothing to tile, nothing to fail
         if self.fail_item is not None:
             imgs[self.fail_item[0]].asarray()[...] = {"runtime": -1.0, "oserror": -2.0, "valueerror": -3.0}[self.fail_exc]
         pio = PyramidIO(root, default_format=self.fmt)
